@@ -47,6 +47,17 @@ def gen(profile, **kw):
     return g
 
 
+def gen_sliding_rejected(rng):
+    """sliding archives with an object field in every case, so that `archlib.sprinkle` puts rejected batches whose
+    LATER rows are malformed into most histories (the rows before them must not stay behind)"""
+    for _ in range(50):
+        case = archlib.gen_case(rng, rng.choice(["mixed", "percell", "ties"]), kinds=("sb",))
+        if "o" in case["layout"] or "t" in case["layout"]:
+            break
+    case["profile"] = "sliding-rejected"
+    return case
+
+
 def gen_scale(rng):
     """Large archives x large batches: the per-cell winner must not depend on any index arithmetic that runs out of
     range (cell index x batch size beyond 2^31, counts beyond a block size ...)."""
@@ -111,6 +122,9 @@ def run(ctx):
                     ("collide", ctx.n(100, 6000)), ("extreme", ctx.n(80, 5000))]:
         ctx.explore(name, gen(name), run_case, n, nontrivial=archlib.nontrivial_c01, time_budget=budget)
     ctx.explore("scale", gen_scale, run_case, ctx.n(4, 200), time_budget=6 if ctx.quick else 60)
+    # SlidingBoundariesArchive inserts a batch row by row: histories with rejected batches (a defect of a later row)
+    ctx.explore("sliding-rejected", gen_sliding_rejected, run_case, ctx.n(60, 3000), nontrivial=archlib.nontrivial_c01,
+                time_budget=6 if ctx.quick else 60)
 
 
 def replay(ctx, case):
